@@ -73,7 +73,7 @@ RE_SUMMARY = re.compile(r"\*\* (\d+) of (\d+) failed(?: \((\d+) (?:unreachable|u
 RE_COVER = re.compile(r"\*\* (\d+) of (\d+) cover properties satisfied")
 RE_TIME = re.compile(r"Verification Time: ([0-9.]+)s")
 RE_PLAYBACK = re.compile(
-    r"/// Check for `([^`]*)`: \"(.*?)\"\s*\n\s*\n?#\[test\]\s*\nfn (\w+)\(\) \{\s*\n\s*let concrete_vals: Vec<Vec<u8>> = vec!\[(.*?)\n\s*\];",
+    r"/// Check for `([^`]*)`: \"(.*?)\"[ \t]*\n(?:[ \t]*///[^\n]*\n|[ \t]*\n)*[ \t]*#\[test\][ \t]*\nfn (\w+)\(\) \{\s*\n\s*let concrete_vals: Vec<Vec<u8>> = vec!\[(.*?)\n\s*\];",
     re.S)
 
 
@@ -264,10 +264,14 @@ def run_property(prop, cfg, tier, jobs, known):
                        + " | ".join(out.strip().splitlines()[-4:])[-500:]}
     tests_ok, ntests, tout, _ = native_tests(crate)
     native = {"native_selftests_passed": ntests, "ok": tests_ok}
+    selftest_fails = []
     if not tests_ok:
-        fails = re.findall(r"^test (\S+) \.\.\. FAILED", tout, re.M)
-        return {"results": [], "exit": EXIT_INCONCLUSIVE, "findings": [], "native": native,
-                "why": "native harness self-tests / model validation failed: " + ", ".join(fails)[:400]}
+        # A harness that fails natively on sample inputs is either a harness/model bug or the very
+        # violation the solver is about to find on a changed tree.  The solver decides: a reproducing
+        # counterexample is a VIOLATION; if the solver says "holds" while the native run of the same
+        # harness fails, the models/stubs diverge from the real build -> inconclusive (below).
+        selftest_fails = re.findall(r"^test (\S+) \.\.\. FAILED", tout, re.M)
+        native["failed"] = selftest_fails
     # 2. solver runs, one process per harness, worker slots with their own target dir
     slots = queue.Queue()
     nslots = max(1, min(jobs, len(harnesses)))
@@ -295,6 +299,10 @@ def run_property(prop, cfg, tier, jobs, known):
         if res["verdict"] == "holds":
             sat_all |= set(res.get("sat_covers", []))
             named_all |= set(res.get("sat_covers", [])) | set(res.get("unsat_covers", []))
+    if selftest_fails and all(r["verdict"] == "holds" for r in results):
+        say("INCONCLUSIVE: native self-tests of the harness crate fail (" + ", ".join(selftest_fails)
+            + ") but the solver reports no violation: models/stubs diverge from the real build, or a harness bug")
+        code = EXIT_INCONCLUSIVE
     never = sorted(named_all - sat_all)
     if never:
         say("INCONCLUSIVE: reachability witnesses never satisfied in this run: " + "; ".join(never))
